@@ -46,6 +46,7 @@ type opT struct {
 	AddFilters []string `json:"add_filters"`
 	AddAggs    []string `json:"add_aggs"`
 	Burn     int      `json:"burn"`    // parse/retrieve: before the call, Parse the path `$` this many times (tens of thousands of unrelated calls in between)
+	BurnHeld int      `json:"burn_held"` // retrieve: between Parse and the call of the function it returned, Parse this many unrelated filters with fresh literals (the function is HELD meanwhile)
 }
 
 type caseT struct {
